@@ -5,6 +5,7 @@ package sftp
 import (
 	"io"
 	"os"
+	"sync"
 )
 
 // recording peer: logs every request, answers with a well-formed reply
@@ -196,3 +197,56 @@ type vLenReader struct{ r vReader }
 
 func (p *vLenReader) Read(b []byte) (int, error) { return p.r.Read(b) }
 func (p *vLenReader) Len() int                     { return len(p.r.data) - p.r.pos }
+
+// Close racing with another method: whatever the interleaving, no request
+// carrying the handle reaches the peer after the CLOSE, exactly one CLOSE is
+// sent, and the loser of the race gets os.ErrClosed.
+//
+//verif:atomic-invisible
+func vh_C12_close_race() {
+	f, c := vC12File()
+	defer vPeerDone(c)
+	k := vChoice(5)
+	var wg sync.WaitGroup
+	var cerr, oerr error
+	wg.Add(2)
+	go func() {
+		defer wg.Done()
+		cerr = f.Close()
+	}()
+	go func() {
+		defer wg.Done()
+		b := make([]byte, 2)
+		switch k {
+		case 0:
+			_, oerr = f.ReadAt(b, 0)
+		case 1:
+			_, oerr = f.WriteAt(b, 0)
+		case 2:
+			_, oerr = f.Stat()
+		case 3:
+			oerr = f.Truncate(1)
+		case 4:
+			oerr = f.Close()
+		}
+	}()
+	wg.Wait()
+	closes, closeAt := 0, -1
+	for i, s := range vSentLog {
+		if s.typ == sshFxpClose {
+			closes++
+			closeAt = i
+		}
+	}
+	vAssert(closes == 1, "exactly one CLOSE is sent")
+	for i, s := range vSentLog {
+		if i > closeAt {
+			vAssert(s.handle != "h", "no request carrying the closed handle is sent after the CLOSE")
+		}
+	}
+	vAssert(cerr == nil || k == 4, "Close succeeds")
+	vAssert(oerr == nil || oerr == os.ErrClosed, "the other call either ran before the close or reports os.ErrClosed")
+	if k == 4 {
+		vAssert((cerr == nil) != (oerr == nil), "of two Close calls exactly one wins")
+	}
+}
